@@ -41,6 +41,11 @@ def run(ctx):
             s1, s2 = np.array(gen.series_nd(rng, r, nd, kind)), np.array(gen.series_nd(rng, c, nd, kind))
         else:
             s1, s2 = np.array(gen.series(rng, r, kind)), np.array(gen.series(rng, c, kind))
+        if rng.random() < 0.25:
+            # non-contiguous views of the same data (the laws must hold for every memory layout)
+            s1 = np.repeat(s1, 2, axis=0)[::2]
+            s2 = (np.repeat(s2, 2, axis=1)[:, ::2] if nd else np.array(list(reversed(s2.tolist())))[::-1])
+            ctx.count("strided_view_cases")
         kw = gen.rand_settings(rng, r, c, with_mld=False)
         if nd:
             kw["use_ndim"] = True
